@@ -4,6 +4,7 @@ import datetime
 import math
 import random
 
+from vpm import history
 from vpm.oracles import daycount as dc
 from vpm.props import c01
 
@@ -38,7 +39,7 @@ def anchors():
 
 
 POINTS = {}
-REQUIRED_CLAUSES = ["dow==(JDN+1)%7", "dow.constant-over-day",
+REQUIRED_CLAUSES = [history.CLAUSE, "dow==(JDN+1)%7", "dow.constant-over-day",
                     "dow==gregorian-weekday", "doy==days-since-jan1",
                     "get_doy.fraction", "doy2date.inverts", "year.int-part",
                     "year.strictly-increasing", "dec31==365|366",
@@ -270,7 +271,7 @@ def key_eqeq(j, diff_s):
     return None
 
 
-CASES = {"year": case_year, "sidereal": case_sidereal}
+CASES = {"history": history.case, "year": case_year, "sidereal": case_sidereal}
 
 
 def gen_jde(rng):
@@ -290,6 +291,7 @@ def gen_jde(rng):
 
 
 def run(mon, spec):
+    history.run_cases(mon, ID, spec)
     if not dc.self_check():
         raise RuntimeError("day counter self-check failed")
     if spec["part"] == "cal":
